@@ -171,6 +171,33 @@ func execEventProps(op string, args []string) string {
 			al = bit01(idAlphabetOK(id0, b64url))
 		}
 		return "su=" + su + "|se=" + se + "|sg=" + sg + "|rd=" + rd + "|al=" + al
+	case "derived": // <ver> <json> <unsigned> <name> <kid> <seed>
+		// C03 / C18: the events SetUnsigned, SetUnsignedField and Sign return report, through every accessor C03
+		// lists, what the original reported (each accessor under recover: a panic shows as PANIC in the tuple)
+		v, err := verOf(args[0])
+		if err != nil {
+			return "err:version"
+		}
+		js := unhx(args[1])
+		mk := func() gmsl.PDU {
+			p, err := v.NewEventFromTrustedJSON(js, false)
+			if err != nil {
+				panic("harness: construct")
+			}
+			return p
+		}
+		t0 := coreTuple(mk())
+		su := "0"
+		if p, err := mk().SetUnsigned(json.RawMessage(unhx(args[2]))); err == nil {
+			su = bit01(coreTuple(p) == t0)
+		}
+		sf := "0"
+		if p := mk(); p.SetUnsignedField("x", 1) == nil {
+			sf = bit01(coreTuple(p) == t0)
+		}
+		sk := ed25519.NewKeyFromSeed(unhx(args[5]))
+		sg := bit01(coreTuple(mk().Sign(string(unhx(args[3])), gmsl.KeyID(unhx(args[4])), sk)) == t0)
+		return "su=" + su + "|sf=" + sf + "|sg=" + sg
 	case "iddiff": // <ver> <json1> <json2>
 		v, err := verOf(args[0])
 		if err != nil {
@@ -211,6 +238,8 @@ func genEventProps(o *Out, r *Rng, b *built) {
 	u := Pick(r, []string{`{}`, `{"age":5}`, `{"prev_content":{"membership":"join"},"x":[1,2,{"y":null}]}`, `null`, `"str"`, `{"a.b":{"c*":1}}`})
 	im = o.Do("idprops", hv, hx(b.json), hx([]byte(u)), hx([]byte(other.name)), hx([]byte(Pick(r, []string{"ed25519:new", string(b.sg.kid)}))), hx(seed))
 	o.Count("idprops." + im)
+	im = o.Do("derived", hv, hx(b.json), hx([]byte(u)), hx([]byte(other.name)), hx([]byte(Pick(r, []string{"ed25519:new", string(b.sg.kid)}))), hx(seed))
+	o.Count("derived." + im)
 	// a second event from a proto-event that differs in exactly one field
 	pe := b.pe
 	what := ""
